@@ -1,20 +1,13 @@
-"""Per-property configuration of tools/check.py."""
+"""Per-property configuration of tools/check.py: one file per property under tools/propcfg/Cxx.py defining CFG and META."""
+import importlib.util, os, glob
 
-CRYPTO_ASSUMED = "Go runtime, math/big and the cryptographic primitives are modelled, not verified (DESIGN.md 2.5)"
-
-PROPS = {
-    "C11": {
-        "lean": "Aqv.Props.C11",
-        "exe": "aqmodel_c11",
-        "harness": "c11",
-        "rule": "byte strings: exhaustive over a 17-symbol boundary alphabet up to length 4 (quick) / 5 (thorough), random nested items "
-                "with their encodings, 6 mutations each, truncations, trailing bytes, long-form size boundaries; typed targets (uints, big, "
-                "bytes, arrays, structs with nil/tail/- tags, pointers, interfaces, RawValue, Header, Transaction, Block, Receipt, Log, Account) "
-                "judged directly: decode(encode v)=v and decode ok => re-encoding equals the input. Non-trivial = the real decoder accepted "
-                "the input (distinct inputs counted).",
-        "tie": {"rlp.DecodeBytes/Stream into interface{}": "corr (Go vs Model.Rlp.dec)", "rlp.EncodeToBytes of items": "corr (Go vs Model.Rlp.enc)",
-                "rlp.Split": "corr", "typed decoders": "direct Spec judgement on the real code (round trip + canonicity)"},
-        "assumptions": [CRYPTO_ASSUMED, "allocation bound is argued from the model (decoded content length = input length); Go's make() sizes are not observed"],
-        "trusted_base": ["Model.Rlp mirrors rlp/encode.go puthead/encodeString and the canonical-size rules of rlp/decode.go readKind/readUint and rlp/raw.go"],
-    },
-}
+PROPS, META = {}, {}
+_d = os.path.join(os.path.dirname(os.path.abspath(__file__)), "propcfg")
+for _p in sorted(glob.glob(os.path.join(_d, "C*.py"))):
+    _id = os.path.splitext(os.path.basename(_p))[0]
+    _s = importlib.util.spec_from_file_location("propcfg_" + _id, _p)
+    _m = importlib.util.module_from_spec(_s)
+    _s.loader.exec_module(_m)
+    if getattr(_m, "ENABLED", True):
+        PROPS[_id] = _m.CFG
+        META[_id] = _m.META
